@@ -124,7 +124,9 @@ func (c *RollingCounter) incBucketValue(v int) {
 
 // Returns the number in the moving window bucket that this slot occupies.
 func (c *RollingCounter) getBucket(t time.Time) int {
-	return int(t.Truncate(c.resolution).Unix() % int64(len(c.values)))
+	// number the resolution-sized slots consecutively, so that the len(c.values) most recent
+	// slots always occupy distinct buckets (whole seconds do that only for a resolution of 1s)
+	return int(t.Truncate(c.resolution).UnixNano() / int64(c.resolution) % int64(len(c.values)))
 }
 
 // Reset buckets that were not updated.
